@@ -12,16 +12,17 @@ import (
 // C07 — table status follows its life cycle; one hand at a time; hands are numbered; per-hand fields reset.
 
 type c07Obs struct {
-	gc       int
-	rank     int // 1 opened, 2 playing, 3 settled, 4 standby/pausing
-	gameID   map[int]string
-	ids      map[string]int
-	settled  map[int]bool
-	opened   map[int]int
-	lastGC   int
-	started  bool
-	external bool // an external pause/close/release was issued: the life-cycle order is no longer judged
-	seq      []string
+	gc        int
+	rank      int // 1 opened, 2 playing, 3 settled, 4 standby/pausing
+	gameID    map[int]string
+	ids       map[string]int
+	settled   map[int]bool
+	opened    map[int]int
+	lastGC    int
+	started   bool
+	external  bool // an external pause/close/release was issued: the life-cycle order is no longer judged
+	maxSerial int64
+	seq       []string
 }
 
 func newC07Obs() *c07Obs {
@@ -52,6 +53,14 @@ func (o *c07Obs) event(p *Play, e *h.Ev) {
 	}
 	c := p.C
 	t := e.T
+	// the two notification channels (table updated / table state updated) are served by different engine goroutines:
+	// a state notification prepared before an open can be delivered after the opened snapshot. The table's own update
+	// serial orders them; a delivery older than what has been seen already says nothing new.
+	if int64(t.UpdateSerial) < o.maxSerial {
+		c.Count("stale_deliveries_skipped", 1)
+		return
+	}
+	o.maxSerial = int64(t.UpdateSerial)
 	st := t.State
 	gc := st.GameCount
 	rk := statusRank(st.Status)
@@ -683,7 +692,7 @@ func init() {
 		Rule: "case kinds by index: life-cycle runs with continue interval 0 (5..12 hands with churn) and 1 (2..3 hands); close or release after the next hand was set up and during the continue delay; break level set between hands and explicit set-up on a break; repeated set-up + signals 0..2 ms after the first gate fire (up to 12 trials per case); unset blinds (no hand may open: first attempt and first retry watched in quick, the whole 30 s retry loop in thorough), then the blind level arrives and the hand opened by the retry must be hand 1; " +
 			"non-trivial = a life-cycle run with at least two hands, or a completed negative scenario; distinct = fingerprint of config + ops (+ variant)",
 		Assumptions: []string{"'no hand opens' is decided when the gate callback has returned (logical event) or, for the continue-delay variants, 2.5 s after settlement (the handler runs after 1 s; a slower machine can only hide a violation, not create one)", "update serials are not judged"},
-		Cases: func(tier string) int { return map[string]int{"quick": 320, "thorough": 4000}[tier] },
+		Cases:       func(tier string) int { return map[string]int{"quick": 320, "thorough": 4000}[tier] },
 		MinNontrivial: func(tier string) int {
 			return map[string]int{"quick": 200, "thorough": 2500}[tier]
 		},
